@@ -4,6 +4,7 @@ import (
 	"fmt"
 
 	"github.com/ostafen/clover/v2/document"
+	"github.com/ostafen/clover/v2/query"
 	"sort"
 	"strings"
 	"time"
@@ -44,7 +45,7 @@ var baseWeights = map[string]int{
 	"CreateIndex": 5, "DropIndex": 3, "HasIndex": 1, "ListIndexes": 1,
 	"Insert": 12, "InsertOne": 4, "Save": 4, "ReplaceById": 4, "UpdateById": 8,
 	"Update": 6, "UpdateFunc": 6, "Delete": 4, "DeleteById": 6,
-	"FindAll": 10, "Count": 3, "FindById": 3, "Derived": 0, "CreateByQuery": 1, "Reopen": 1,
+	"FindAll": 10, "Count": 3, "FindById": 3, "Derived": 0, "CreateByQuery": 1, "Reopen": 1, "FailedCommit": 2,
 	"hostileBatchPct": 8, "rewriteIDPct": 3, "badExpPct": 3,
 }
 
@@ -429,6 +430,64 @@ func (d *seqRun) step() (written string, wasWrite bool) {
 		dst := gen.Pick(d.r, collNames)
 		d.CreateCollectionByQuery(dst, d.pickQuery(src))
 		return dst, true
+	case "FailedCommit":
+		// a write whose commit the store refuses: it must report the failure and leave no trace (also none in any cache of the handle)
+		if d.h.MS == nil {
+			break
+		}
+		c, ok := d.existingColl()
+		if !ok {
+			break
+		}
+		mc := d.coll(c)
+		var name string
+		var f func() error
+		switch d.r.Intn(5) {
+		case 0, 1:
+			docs := d.newDocsClean(c, d.r.Range(1, 4))
+			name = fmt.Sprintf("Insert(%q, %d docs) with a failing commit", c, len(docs))
+			f = func() error {
+				cds := make([]*document.Document, len(docs))
+				for i, x := range docs {
+					cds[i] = model.NewDoc(x)
+				}
+				return d.h.DB.Insert(c, cds...)
+			}
+		case 2:
+			if len(mc.Docs) == 0 {
+				return
+			}
+			id := gen.Pick(d.r, mc.IDs())
+			name = fmt.Sprintf("DeleteById(%q,%q) with a failing commit", c, id)
+			f = func() error { return d.h.DB.DeleteById(c, id) }
+		case 3:
+			fld := d.indexField(c)
+			if mc.Indexes[fld] {
+				name = fmt.Sprintf("DropIndex(%q,%q) with a failing commit", c, fld)
+				f = func() error { return d.h.DB.DropIndex(c, fld) }
+			} else {
+				name = fmt.Sprintf("CreateIndex(%q,%q) with a failing commit", c, fld)
+				f = func() error { return d.h.DB.CreateIndex(c, fld) }
+			}
+		default:
+			if len(mc.Docs) == 0 {
+				return
+			}
+			name = fmt.Sprintf("Delete(all of %q) with a failing commit", c)
+			f = func() error { return d.h.DB.Delete(query.NewQuery(c)) }
+		}
+		d.h.MS.FailNextCommit()
+		got, err := d.run(name, false, f)
+		if d.lastSt != nil && d.lastSt.Injected == 0 {
+			// the operation never committed a mutation (e.g. nothing to delete): nothing was refused
+			d.c.Log("%s -> %s (no commit reached)", name, got)
+			d.h.MS.DisarmFailCommit()
+			// the model must follow a successful operation: simplest is to re-synchronise from the store
+			d.resync(c)
+			return c, true
+		}
+		d.expect(name, []string{EAny}, got, err)
+		return c, true
 	case "Reopen":
 		if d.h.Persistent() {
 			if err := d.h.Reopen(d.c); err != nil {
@@ -441,6 +500,25 @@ func (d *seqRun) step() (written string, wasWrite bool) {
 		}
 	}
 	return "", false
+}
+
+// resync re-reads one collection into the model (used only when an operation's effect cannot be predicted).
+func (d *seqRun) resync(c string) {
+	docs, err := d.h.DB.FindAll(query.NewQuery(c))
+	if err != nil {
+		d.viol("resync", "FindAll(%q): %v", c, err)
+		return
+	}
+	mc := model.NewColl()
+	for _, x := range docs {
+		mc.Docs[x.ObjectId()] = model.FromDoc(x)
+		d.noteID(c, x.ObjectId())
+	}
+	infos, _ := d.h.DB.ListIndexes(c)
+	for _, i := range infos {
+		mc.Indexes[i.Field] = true
+	}
+	d.m.Colls[c] = mc
 }
 
 // bulkQuery draws a query for a bulk write: mostly without a window.
